@@ -384,6 +384,12 @@ def site_with_prev(draw, tier="quick", ops=("eq", "le", "ge", "in", "getitem"), 
     def text(d):
         return draw(gr.noisy(d, noise, top_display=(op == "getitem")))
 
+    if draw(st.integers(0, 14)) == 0:
+        # a snapshot that is never compared (only its text can be updated)
+        pd = draw(gv.values(tier, 6))
+        return {"op": "eq", "events": [], "place": "var", "style": style, "rev": False,
+                "prev_desc": pd, "prev": text(pd)}
+
     if op == "eq":
         events = draw(simple_events("eq", tier, max_leaves))
         pd = None if missing else draw(prev_for_eq(events[0], tier))
